@@ -215,7 +215,10 @@ func (ctx *cmdContext) infoUnlocked(cs *clientState) string {
 	if cs.client.IsCloseRequested() {
 		flags.WriteRune('c')
 	}
-	if isAbortedExecUnlocked(cs) {
+	if cs == ctx.cs && isAbortedExecUnlocked(cs) {
+		// only for the calling connection: the watch table of another connection
+		// belongs to its goroutine, and its keys may live in a database that is
+		// not locked here
 		flags.WriteRune('d')
 	}
 	if cs.isMultiInProgress() {
